@@ -444,12 +444,14 @@ def _per_empty_open_type(ctx):
 def _per_size_at_ref(ctx):
     # per.py BitString / ArrayType have no set_size_range: a SIZE constraint written at a reference to a
     # BIT STRING / SEQUENCE OF / SET OF type ('e Al1 (SIZE(1..9))') is not PER-visible to the library
-    if ctx.codec not in ('per', 'uper'):
+    if ctx.codec not in ('per', 'uper', 'oer'):
         return False
     for n in ctx.tnodes():
         if n.ty.kind == 'REF' and n.ty.size is not None:
             if n.r.base.kind in ('BIT STRING', 'SEQUENCE OF', 'SET OF'):
                 return True
+            if ctx.codec == 'oer' and n.r.base.kind in asn.STRING_KINDS:
+                return True     # oer.py KnownMultiplierStringType has no set_size_range either
             if n.member is None:
                 # not a member: element of SEQUENCE/SET OF or a top-level 'B ::= A (SIZE(..))'; only
                 # compile_member applies the size of a reference
@@ -494,5 +496,38 @@ def _per_aligned_from(ctx):
         while b2 < b:
             b2 *= 2
         if b and full[k] <= 2 ** b2 and nperm != full[k]:
+            return True
+    return False
+
+
+@finding('C06', 'oer-fixed-bmp-universal-length')
+def _oer_fixed_bmp(ctx):
+    # oer.py compile_type: BMPString / UniversalString are compiled without their SIZE, so a fixed-size
+    # string still gets a length determinant (X.696 27: fixed-size known-multiplier strings have none)
+    for n in ctx.tnodes():
+        s = n.r.size
+        if n.r.base.kind in ('BMPString', 'UniversalString') and s is not None and not s.ext \
+                and s.lo is not None and s.lo == s.hi:
+            return True
+    return False
+
+
+@finding(('C06', 'C10'), 'oer-groups-flattened')
+def _oer_groups(ctx):
+    # oer.py compile_extension_member: the members of a [[ ]] group become individual extension additions
+    # (one presence bit and one open type each); X.696 16 encodes a group as ONE addition holding a SEQUENCE
+    for n in ctx.tnodes():
+        b = n.r.base
+        if b.kind in ('SEQUENCE', 'SET') and any(isinstance(a, asn.Group) for a in (b.ext or [])):
+            return True
+    return False
+
+
+@finding('C06', 'oer-utf8-fixed-size-ascii')
+def _oer_utf8_fixed_any(ctx):
+    # same root cause as C01 oer-utf8-fixed-size, visible in the bytes even for ASCII text
+    for n in ctx.tnodes():
+        s = n.r.size
+        if n.r.base.kind == 'UTF8String' and s is not None and not s.ext and s.lo is not None and s.lo == s.hi:
             return True
     return False
